@@ -112,6 +112,67 @@ def _linen_part(fails):
         if len(set(k4.values())) != len(k4) and (flag or tname not in ('separator', 'deep')):
           fails.append(dict(inputs=dict(inp, variant='missing-stream'), observed='fallback stream reused a key', violated='no-key-reuse'))
           return cases
+      # weight sharing: ONE module instance called several times in a forward pass; its children keep counting
+      cases += 1
+      seen = []
+
+      class Leaf(nn.Module):
+        @nn.compact
+        def __call__(self):
+          seen.append(('leaf', _kd(self.make_rng('dropout'))))
+
+      class Shared(nn.Module):
+        @nn.compact
+        def __call__(self):
+          seen.append(('own', _kd(self.make_rng('dropout'))))
+          Leaf(name='leaf')()
+
+      class Net(nn.Module):
+        @nn.compact
+        def __call__(self):
+          blk = Shared(name='shared')
+          for _ in range(3):
+            blk()
+      Net().apply({}, rngs={'dropout': jax.random.key(1)})
+      ks = [k for _, k in seen]
+      if len(set(ks)) != len(ks):
+        dup = [t for t, k in seen if ks.count(k) > 1]
+        fails.append(dict(inputs=dict(api='linen', check='one module instance called 3 times (children draw keys)', separator_fix=flag),
+                          observed=f'keys repeat across the calls of the shared instance (draws of: {sorted(set(dup))})', violated='no-key-reuse'))
+        return cases
+      first_run = list(ks)
+      seen.clear()
+      Net().apply({}, rngs={'dropout': jax.random.key(1)})
+      if [k for _, k in seen] != first_run:
+        fails.append(dict(inputs=dict(api='linen', check='one module instance called 3 times (children draw keys)', separator_fix=flag), observed='same seed, other keys on a second run', violated='deterministic'))
+        return cases
+      # the same through nn.jit (cached trace on the later calls) and across repeated applies
+      cases += 1
+
+      class JNet(nn.Module):
+        @nn.compact
+        def __call__(self, x):
+          blk = nn.jit(SharedX)(name='shared')
+          for _ in range(3):
+            x = blk(x)
+          return x
+
+      class SharedX(nn.Module):
+        @nn.compact
+        def __call__(self, x):
+          x = x + jax.random.normal(self.make_rng('dropout'), x.shape)
+          return LeafX(name='leaf')(x)
+
+      class LeafX(nn.Module):
+        @nn.compact
+        def __call__(self, x):
+          return x + jax.random.normal(self.make_rng('dropout'), x.shape)
+      import jax.numpy as jnp
+      outs = [np.asarray(JNet().apply({}, jnp.zeros((3,)), rngs={'dropout': jax.random.key(1)})) for _ in range(3)]
+      if not (np.allclose(outs[0], outs[1]) and np.allclose(outs[0], outs[2])):
+        fails.append(dict(inputs=dict(api='linen', check='nn.jit block called 3 times per apply, apply repeated 3 times', separator_fix=flag),
+                          observed='the same apply with the same seed gives other random draws on a later execution (traced vs cached)', violated='deterministic'))
+        return cases
       # parameter initialisers: keys are position-addressed and not shared
       cases += 1
 
